@@ -10,12 +10,32 @@ namespace C15
 theorem config_invariant (c : Ctx) (op : Op) :
     (stepOp c op).1.msgTypes = c.msgTypes ∧ (stepOp c op).1.vendorIds = c.vendorIds ∧
     (stepOp c op).1.address = c.address ∧ (stepOp c op).1.uuid = Spec.uuidStep c.uuid op := by
-  sorry
+  cases op with
+  | process p buf =>
+    obtain ⟨r, q, s, h⟩ := Proc.process_fst c p buf
+    rw [Proc.stepOp_process]; simp [h, Spec.uuidStep]
+  | setUuid u =>
+    simp only [stepOp, Spec.uuidStep]
+    split <;> exact ⟨rfl, rfl, rfl, rfl⟩
+  | _ => exact ⟨rfl, rfl, rfl, rfl⟩
 
 theorem history (a : B) (ts : Bytes) (vs : List VendorId) (ops : List Op) :
     let c := (runOps (Ctx.new a ts vs) ops).1
     c.msgTypes = ts ∧ c.vendorIds = vs ∧ c.address = a ∧ c.uuid = Spec.uuid ops := by
-  sorry
+  have gen : ∀ (ops : List Op) (c : Ctx),
+      (runOps c ops).1.msgTypes = c.msgTypes ∧ (runOps c ops).1.vendorIds = c.vendorIds ∧
+      (runOps c ops).1.address = c.address ∧ (runOps c ops).1.uuid = ops.foldl Spec.uuidStep c.uuid := by
+    intro ops
+    induction ops with
+    | nil => intro c; exact ⟨rfl, rfl, rfl, rfl⟩
+    | cons op ops ih =>
+      intro c
+      obtain ⟨h1, h2, h3, h4⟩ := config_invariant c op
+      obtain ⟨i1, i2, i3, i4⟩ := ih (stepOp c op).1
+      rw [Proc.runOps_cons]
+      simp only [List.foldl_cons]
+      exact ⟨i1.trans h1, i2.trans h2, i3.trans h3, by rw [i4, h4]⟩
+  exact gen ops (Ctx.new a ts vs)
 
 /-- Get Message Type Support: count then the configured list, in order -/
 theorem types (c : Ctx) (p buf : Bytes) (hb : 64 ≤ buf.length) (ht : c.msgTypes.length ≤ 30)
@@ -23,21 +43,44 @@ theorem types (c : Ctx) (p buf : Bytes) (hb : 64 ≤ buf.length) (ht : c.msgType
     ∃ d buf', process c p buf = (c, .ok (d, some (14 + c.msgTypes.length)), buf') ∧
       Spec.sub buf' 9 (13 + c.msgTypes.length) =
         [0x00#8, 0x05#8, 0x00#8, BitVec.ofNat 8 c.msgTypes.length] ++ c.msgTypes := by
-  sorry
+  have hcmd' : byteAt p 10 = 0x05#8 := hcmd
+  have hu : Spec.reqUnimpl (byteAt p 10) = false := by rw [hcmd']; decide
+  have hd := Proc.dispatch_msgTypes_ok c (byteAt p 10) (byteAt p 6) (fun i => byteAt p (11 + i)) buf
+    (by rw [hcmd']; rfl) ht (by omega)
+  refine ⟨_, _, Proc.process_of_dispatch c p buf ha hu _ _ _ hd, ?_⟩
+  have := Proc.sub_respPkt c.address (byteAt p 6) 0x05#8
+    (0x00#8 :: BitVec.ofNat 8 c.msgTypes.length :: c.msgTypes) (buf.drop (14 + c.msgTypes.length))
+  have e : 11 + (0x00#8 :: BitVec.ofNat 8 c.msgTypes.length :: c.msgTypes).length = 13 + c.msgTypes.length := by
+    simp; omega
+  rw [e] at this
+  simpa using this
 
 /-- Get Endpoint UUID: the 16 bytes most recently installed -/
 theorem uuid (c : Ctx) (p buf : Bytes) (hb : 64 ≤ buf.length) (hu : c.uuid.length = 16)
     (ha : Spec.isAcceptedRequest p = true) (hcmd : Spec.cmdOf p = 0x03#8) :
     ∃ d buf', process c p buf = (c, .ok (d, some 29), buf') ∧
       Spec.sub buf' 9 28 = [0x00#8, 0x03#8, 0x00#8] ++ c.uuid := by
-  sorry
+  have hcmd' : byteAt p 10 = 0x03#8 := hcmd
+  have hun : Spec.reqUnimpl (byteAt p 10) = false := by rw [hcmd']; decide
+  have hd := Proc.dispatch_uuid_ok c (byteAt p 10) (byteAt p 6) (fun i => byteAt p (11 + i)) buf
+    (by rw [hcmd']; rfl) hu (by omega)
+  refine ⟨_, _, Proc.process_of_dispatch c p buf ha hun _ _ _ hd, ?_⟩
+  have := Proc.sub_respPkt c.address (byteAt p 6) 0x03#8 (0x00#8 :: c.uuid) (buf.drop 29)
+  have e : 11 + (0x00#8 :: c.uuid).length = 28 := by simp [hu]
+  rw [e] at this
+  simpa using this
 
 /-- Get MCTP Version Support: one entry, 1.3.1 (F1 F3 F1 00) -/
 theorem version (c : Ctx) (p buf : Bytes) (hb : 64 ≤ buf.length)
     (ha : Spec.isAcceptedRequest p = true) (hcmd : Spec.cmdOf p = 0x04#8) :
     ∃ d buf', process c p buf = (c, .ok (d, some 18), buf') ∧
       Spec.sub buf' 9 17 = [0x00#8, 0x04#8, 0x00#8, 0x01#8, 0xF1#8, 0xF3#8, 0xF1#8, 0x00#8] := by
-  sorry
+  have hcmd' : byteAt p 10 = 0x04#8 := hcmd
+  have hun : Spec.reqUnimpl (byteAt p 10) = false := by rw [hcmd']; decide
+  have hd := Proc.dispatch_version_ok c (byteAt p 10) (byteAt p 6) (fun i => byteAt p (11 + i)) buf
+    (by rw [hcmd']; rfl) (by omega)
+  refine ⟨_, _, Proc.process_of_dispatch c p buf ha hun _ _ _ hd, ?_⟩
+  exact Proc.sub_respPkt c.address (byteAt p 6) 0x04#8 [0x00#8, 0x01#8, 0xF1#8, 0xF3#8, 0xF1#8, 0x00#8] (buf.drop 18)
 
 end C15
 end Mctp
